@@ -24,6 +24,19 @@ def do_case(ctx, inp):
     assumed = copy.deepcopy(o).assume(render_interp(ctx.rng, A))
     ta = snap(assumed)
     ctx.op({"op": "assume", "t": t, "I": interp_json(A)}, {"t": ta})
+    # a caller keeps the assumed model and asks the original again, with another constant for the same sub-proposition:
+    # the model returned earlier is the caller's and stays what it was
+    consts = [k for k in named_comp if A[k][0] == A[k][1] and A[k][0] in (0, 1)]
+    if consts:
+        m = copy.deepcopy(o)
+        R1 = m.assume(render_interp(ctx.rng, A))
+        A2 = dict(A); A2[consts[0]] = (1 - A[consts[0]][0],) * 2
+        m.assume(render_interp(ctx.rng, A2))
+        ctx.tags["assumed-model-kept-while-the-original-is-asked-again"] += 1
+        if snap(R1) != ta:
+            ctx.fail("assumed-model-changed-by-a-later-call-on-the-original",
+                     {"A": interp_json(A), "then": interp_json(A2), "kept_result_before": ta, "kept_result_after": snap(R1)})
+            return
     rest = {n: b for n, b in lv.items() if n not in A}
     byid = {}
     for n in subs(t):
